@@ -159,9 +159,20 @@ class _ThreadingShim:
 
 
 class _TimeShim:
+    """runner.time: sleep is a no-op; the clock can be warped forward by the
+    world (a layer or test that "takes" minutes without taking them)."""
+    offset = 0.0
+
     @staticmethod
     def sleep(x):
         pass
+
+    def time(self):
+        return _real_time.time() + _TimeShim.offset
+
+    @staticmethod
+    def warp(seconds):
+        _TimeShim.offset += seconds
 
     def __getattr__(self, k):
         return getattr(_real_time, k)
@@ -345,6 +356,9 @@ def run_world(spec, argv, child_hook=None, warnings=None, probe=True,
     R.subprocess = _SubprocessShim()
     R.threading = _ThreadingShim()
     R.time = _TimeShim()
+    _TimeShim.offset = 0.0
+    saved_warp = worldrt.WARP
+    worldrt.WARP = _TimeShim.warp
     if want_state:
         res.state_before = global_state()
         import traceback as _tb
@@ -392,6 +406,7 @@ def run_world(spec, argv, child_hook=None, warnings=None, probe=True,
         root_logger.handlers[:] = saved_handlers
         worldrt.TRACE, worldrt.VPID, worldrt.PROBE = saved_trace
         worldrt.EXEC = saved_exec
+        worldrt.WARP = saved_warp
         worldrt.FD2 = saved_fd2
         worldrt.uninstall(prev_mod)
         CUR_OUT, CUR_ERR = saved_cur
